@@ -251,7 +251,11 @@ impl Substream {
             substream,
             codec,
             substream_id,
-            read_buffer: BytesMut::zeroed(1024),
+            read_buffer: match codec {
+                // Identity frames are read into `read_buffer[..payload_size]`.
+                ProtocolCodec::Identity(payload_size) => BytesMut::zeroed(payload_size.max(1024)),
+                _ => BytesMut::zeroed(1024),
+            },
             offset: 0usize,
             pending_frames: VecDeque::new(),
             current_frame_size: None,
